@@ -23,6 +23,7 @@ from .prometheus import (
     CONNECTION_LOST,
     CONNECTION_MADE,
     CONNECTION_READY,
+    SUBSCRIPTIONS,
 )
 
 log = logging.getLogger(__name__)
@@ -197,6 +198,13 @@ class Connection(BaseProtocol):
             self.error(f"Authentication failed for {ident}")
             self.transport.close()
             return
+
+        if self.ak is not None and self.ak != ident:
+            # Authenticated again as someone else: the subscriptions this
+            # connection already holds are counted under the new identity
+            for chan in self.active_subscriptions:
+                SUBSCRIPTIONS.labels(self.ak, chan).dec()
+                SUBSCRIPTIONS.labels(ident, chan).inc()
 
         self.ak = ident
         self.uid = akrow["owner"]
